@@ -26,3 +26,18 @@ reg("C14", "model_checking",
     "declining is accepted, a wrong answer is not",
     _NOTE + " Engine objects (and DFA caches) are reused across all haystacks of a pattern, as the library reuses them.",
     "TLC-generated per-offset vectors (Find from every offset, anchored match, set of all match ends) replayed into each engine", "DESIGN.md §6 C14")
+
+reg("C12", "model_checking",
+    "Relational: TLC enumerates the configuration space (every field at its boundary values, validity by the TLA+ transcription of Validate) and the "
+    "pattern universe; Validate() is checked against the specification on every enumerated configuration; every pattern is compiled under 6 fixed and 6 "
+    "rotating valid configurations and all results compared with the default configuration and the plain NFA simulation, and recomputed under masked CPU "
+    "vector extensions (child runs with GODEBUG=cpu.avx2=off[,cpu.ssse3=off])",
+    "No oracle. Bounded universe as for C01; configurations: the product of boundary values (14 700 per shard), a rotating subset per pattern.",
+    "TLC-enumerated configurations x TLC-enumerated inputs; relational conformance between configurations", "DESIGN.md §6 C12")
+reg("C13", "model_checking",
+    "Relational aged-vs-fresh: one aged value per pattern and mode driven through every haystack of the record with rotating APIs, repeats and GCs; "
+    "RegexObject life-cycle state graph explored exhaustively by TLC and every transition replayed on real values; Backtrack protocol model checked by TLC "
+    "(NoStale, Bounded, Termination; negative control for the defective wrap) and bound to the code by validating H-bt traces of a history that drives the "
+    "uint16 generation counter through an overflow (Trace_Backtrack, real modulus)",
+    "No oracle for the relational part; protocol models are trusted only as far as trace validation binds them to the code.",
+    "TLA+ protocol models (RegexObject, Backtrack) + trace validation of recorded executions + relational replay", "DESIGN.md §6 C13")
